@@ -191,8 +191,8 @@ def stepInsert (s : Shared) (th : Thread) (id : Nat) (tf : List (Nat × Nat)) : 
     match tf[j]? with
     | none => none
     | some (t, f) =>
-      let (s', b) := insertPosting s th.snapBucket id t f
-      some (s', { th with btu := btuAdd th.btu b t, pc := if j + 1 < tf.length then .posting (j + 1) else .bucket 0 })
+      let r := insertPosting s th.snapBucket id t f
+      some (r.1, { th with btu := btuAdd th.btu r.2 t, pc := if j + 1 < tf.length then .posting (j + 1) else .bucket 0 })
   | .bucket j =>
     match th.btu[j]? with
     | none => none
